@@ -176,7 +176,10 @@ CLAIMED = {
         'every header, the block size is rebound from the '
         'harness to every value up to 2x the default and beyond the file '
         'size, plus a padding x block diagonal; thousands of reader runs '
-        'per file must all give the same records.',
+        'per file must all give the same records; so must a read next '
+        'to an abandoned and a lockstep companion reader, from offset / '
+        'buffered / file / gzip streams, and (unless refused with '
+        'DiffXParseError) with whitespace-only lines before a header.',
         'Trusted: dxv/spec.py ref_parse. Block size is varied through the '
         'private default of DiffXReader._read_until; if absent that '
         'dimension is reported unavailable.',
@@ -257,8 +260,9 @@ CLAIMED = {
         'by each of 24 level x name ids and 8 out-of-vocabulary headers is '
         'fed to the real reader; accepted iff the table allows it, records '
         'must carry the right ids/levels; shallow prefixes are also tried '
-        'with 1..300 empty lines before the candidate and with a '
-        'zero-length last section. Exhaustive up to the depth bound; '
+        'with 1..300 empty lines before the candidate, with a '
+        'zero-length last section, and next to a companion reader '
+        'advanced in lockstep. Exhaustive up to the depth bound; '
         'random walks to depth 60 beyond.',
         'Trusted: dxv/spec.py table (two documented errata). Sections carry '
         'minimal valid content.',
@@ -285,7 +289,7 @@ CLAIMED = {
         'Every byte string over {CR,LF,NUL,SP,a} up to length 7 (quick) / 9 '
         '(thorough) x the 10 newline sequences the library uses is checked '
         'against the four identities of the property and an independent '
-        'splitter; newlines straddling block boundaries (96 B .. 128 KiB) '
+        'splitter; newlines straddling block boundaries (96 B .. 1 MiB) '
         'and result aliasing between calls are enumerated; longer '
         'token-built strings are sampled with Hypothesis. '
         'Exhaustive up to the bound, sampled beyond.',
